@@ -16,9 +16,9 @@ mkdir -p $wt/_mutants/x && cp $demo $wt/_mutants/x/demo.py
 (cd /repo && PYTHONPATH=/repo/src JAX_PLATFORMS=cpu timeout 900 /venv/bin/python $demo >/tmp/mwt-$name.demo0 2>&1); drc0=$?
 echo "RESULT $name demo: with-change rc=$drc  without-change rc=$drc0"
 for c in $checks; do
-  (cd /verif && FVM_REPO=$wt ./check $c --tier $tier > /tmp/mwt-$name.$c.log 2>&1); rc=$?
+  (cd ${VERIF_DIR:-/verif} && FVM_REPO=$wt ./check $c --tier $tier > /tmp/mwt-$name.$c.log 2>&1); rc=$?
   keys=$(grep "witness \[" /tmp/mwt-$name.$c.log | sed 's/.*witness \[\([^]]*\)\].*/\1/' | sort -u | head -6 | tr '\n' ';')
   echo "RESULT $name check $c tier=$tier rc=$rc keys=$keys"
 done
 git -C /repo worktree remove --force $wt
-rm -rf /verif/.scratch/evidence-mwt-$name
+rm -rf ${VERIF_DIR:-/verif}/.scratch/evidence-mwt-$name
